@@ -188,13 +188,25 @@ func runAliasMode(seed int64, n int, tr *transcript) {
 					}
 					pb := newCallerBuf(r, key[:1+r.Intn(len(key))], r.Intn(3))
 					var got []kv
+					plit := hexLit(pb.arr[pb.off : pb.off+pb.n])
+					late := r.Intn(2) == 0
 					out := safely(func() string {
-						for k, v := range raw.Prefix(pb.key()) {
+						seq := raw.Prefix(pb.key())
+						if late {
+							// the call has returned: the caller refills the buffer before ranging over the sequence
+							if !pb.intact() {
+								violated("Prefix", pb)
+							}
+							pb.scribble()
+							pb.snapshot = append([]byte{}, pb.arr...)
+							tr.stats["alias-sequence-ranged-after-buffer-reuse"]++
+						}
+						for k, v := range seq {
 							got = append(got, kv{hexLit(k), v})
 						}
 						return renderKVs(got)
 					})
-					tr.emit(fmt.Sprintf("seq %d prefix %s 0 1", id, hexLit(pb.arr[pb.off:pb.off+pb.n])), out)
+					tr.emit(fmt.Sprintf("seq %d prefix %s 0 1", id, plit), out)
 					if !pb.intact() {
 						violated("Prefix", pb)
 					}
@@ -232,8 +244,23 @@ func runAliasMode(seed int64, n int, tr *transcript) {
 						}
 					}
 					var got []kv
+					late := r.Intn(2) == 0
 					out := safely(func() string {
-						for k, v := range raw.Range(ka, kb) {
+						seq := raw.Range(ka, kb)
+						if late {
+							// the call has returned: the caller refills both buffers before ranging over the sequence
+							if !b.intact() {
+								violated("Range", b)
+							}
+							if !b2.intact() {
+								violated("Range", b2)
+							}
+							b.scribble()
+							b2.scribble()
+							b.snapshot, b2.snapshot = append([]byte{}, b.arr...), append([]byte{}, b2.arr...)
+							tr.stats["alias-sequence-ranged-after-buffer-reuse"]++
+						}
+						for k, v := range seq {
 							got = append(got, kv{hexLit(k), v})
 						}
 						return renderKVs(got)
@@ -341,7 +368,78 @@ func runMemMode(seed int64, n int, sub string, tr *transcript) {
 	}
 	if sub == "" {
 		memDroppedTree(tr, slack)
+		memChurnVsFresh(tr, slack)
 	}
+}
+
+// memChurnVsFresh: two trees holding the same keys – one built in one go, one that reached the same content through
+// rounds of churn with collections in between (a resident set refreshed a few keys at a time among transient keys) –
+// retain about the same: memory depends on what the tree stores, not on how it got there.
+func memChurnVsFresh(tr *transcript, slack int64) {
+	defer func() {
+		if rec := recover(); rec != nil {
+			tr.emit("assert 0 no-panic-during-memory-run/churn-vs-fresh", "PANIC:"+strings.ReplaceAll(fmt.Sprint(rec), " ", "_"))
+		}
+	}()
+	const (
+		resident  = 2048 // pairs of keys differing in the last byte: one node4 per pair
+		transient = 2048
+		perRound  = 32
+		tbase     = 1 << 16
+	)
+	key := func(i, b uint64) uint64 { return i<<8 | b }
+	build := func() art.Tree[uint64, int] {
+		t := art.NewUnsignedBinaryTree[uint64, int]()
+		for i := uint64(0); i < resident; i++ {
+			t.Insert(key(i, 0), int(i))
+			t.Insert(key(i, 1), int(i))
+		}
+		return t
+	}
+	h0 := int64(liveHeap())
+	fresh := build()
+	freshHeap := int64(liveHeap()) - h0
+	churned := build()
+	for r := uint64(0); r < resident/perRound; r++ {
+		first := r * perRound
+		// a few residents lose their second key (their node4 collapses and is released) …
+		for i := first; i < first+perRound; i++ {
+			churned.Delete(key(i, 1))
+		}
+		runtime.GC()
+		runtime.GC()
+		// … and get it back one at a time while short-lived pairs come and go around them
+		next := first
+		for j := uint64(0); j < transient; j++ {
+			churned.Insert(key(tbase+j, 0), 0)
+			churned.Insert(key(tbase+j, 1), 0)
+			if j%(transient/perRound) == 0 && next < first+perRound {
+				churned.Insert(key(next, 1), int(next))
+				next++
+			}
+		}
+		for ; next < first+perRound; next++ {
+			churned.Insert(key(next, 1), int(next))
+		}
+		for j := uint64(0); j < transient; j++ {
+			churned.Delete(key(tbase+j, 0))
+			churned.Delete(key(tbase+j, 1))
+		}
+	}
+	afterChurn := int64(liveHeap()) - h0 - freshHeap
+	live := make([]struct{}, 2*resident)
+	if churned.Size() != 2*resident || fresh.Size() != 2*resident {
+		tr.emit("assert 0 churn-vs-fresh-same-content", fmt.Sprintf("sizes=%d,%d", churned.Size(), fresh.Size()))
+	}
+	name := fmt.Sprintf("assert 0 churned-tree-retains-like-a-fresh-tree-with-the-same-keys/keys=%d", len(live))
+	if afterChurn > 2*freshHeap+slack {
+		tr.emit(name, fmt.Sprintf("churned=%d,fresh=%d", afterChurn, freshHeap))
+	} else {
+		tr.emit(name, "ok")
+	}
+	tr.stats["mem-churn-vs-fresh"]++
+	runtime.KeepAlive(churned)
+	runtime.KeepAlive(fresh)
 }
 
 // memDroppedTree: interior nodes released by one tree are reused by others; whatever they pointed to in their
@@ -900,6 +998,62 @@ func gcForValue[V any](tr *transcript, vname string, mk func(i int) V, r *rand.R
 	}
 }
 
+// gcCrossType: two trees whose leaves have the same size but a different pointer layout live side by side; what one
+// releases the other may pick up at once (no collection in between); after collections the pointer-carrying values
+// must still be what was stored.
+func gcCrossType(tr *transcript, r *rand.Rand) {
+	fail := ""
+	func() {
+		defer func() {
+			if rec := recover(); rec != nil {
+				fail = "PANIC:" + strings.ReplaceAll(fmt.Sprint(rec), " ", "_")
+			}
+		}()
+		old := debug.SetGCPercent(-1)
+		plain := art.NewUnsignedBinaryTree[uint64, uint64]()
+		ptrs := art.NewUnsignedBinaryTree[uint64, *[4]uint64]()
+		strs := art.NewAlphaSortedTree[string, string]()
+		pairs := art.NewAlphaSortedTree[string, [2]uint64]()
+		const n = 400
+		for i := 0; i < n; i++ {
+			plain.Insert(uint64(i)*7, uint64(i))
+			pairs.Insert(fmt.Sprintf("p%05d", i), [2]uint64{uint64(i), 1})
+		}
+		for i := 0; i < n; i++ {
+			// a leaf without pointers goes, a leaf with pointers comes – in the other tree
+			plain.Delete(uint64(i) * 7)
+			v := &[4]uint64{uint64(i), uint64(i) * 3, 0xfeedface, uint64(i) ^ 0xff}
+			ptrs.Insert(uint64(i)*11+1, v)
+			pairs.Delete(fmt.Sprintf("p%05d", i))
+			strs.Insert(fmt.Sprintf("s%05d", i), strings.Repeat("v", 1+i%9)+strconv.Itoa(i))
+		}
+		debug.SetGCPercent(old)
+		for k := 0; k < 3; k++ {
+			runtime.GC()
+			junk := make([][]uint64, 0, 4096)
+			for j := 0; j < 4096; j++ {
+				junk = append(junk, []uint64{0xdeadbeef, 0xdeadbeef, 0xdeadbeef, 0xdeadbeef})
+			}
+			runtime.KeepAlive(junk)
+		}
+		for i := 0; i < n && fail == ""; i++ {
+			v, ok := ptrs.Search(uint64(i)*11 + 1)
+			if !ok || v == nil || *v != [4]uint64{uint64(i), uint64(i) * 3, 0xfeedface, uint64(i) ^ 0xff} {
+				fail = fmt.Sprintf("pointer-value-of-key-%d-changed", i)
+			}
+			sv, ok := strs.Search(fmt.Sprintf("s%05d", i))
+			if !ok || sv != strings.Repeat("v", 1+i%9)+strconv.Itoa(i) {
+				fail = fmt.Sprintf("string-value-of-key-%d-changed", i)
+			}
+		}
+	}()
+	if fail == "" {
+		fail = "ok"
+	}
+	tr.emit("assert 0 values-survive-gc-when-leaves-are-recycled-across-value-types", fail)
+	tr.stats["gc-cross-type"]++
+}
+
 func runGCMode(seed int64, n int, tr *transcript) {
 	r := rand.New(rand.NewSource(seed))
 	gcForValue(tr, "int", func(i int) int { return i * 3 }, r, n)
@@ -908,6 +1062,7 @@ func runGCMode(seed int64, n int, tr *transcript) {
 	gcForValue(tr, "slice", func(i int) []int { return []int{i, i + 1, i + 2} }, r, n)
 	gcForValue(tr, "big", func(i int) bigVal { var b bigVal; b.a[0], b.a[15] = uint64(i), uint64(i)*7; return b }, r, n)
 	gcForValue(tr, "zero-size", func(i int) struct{} { return struct{}{} }, r, n)
+	gcCrossType(tr, r)
 	keys := make([]string, 0, len(tr.stats))
 	for k := range tr.stats {
 		keys = append(keys, k)
